@@ -87,7 +87,7 @@ def _normal_form_table(model):
         it.reset_run(Oracle())
         rec = {}
         it.func_hooks[bt.qualname] = lambda interp, fi, args, kwargs, rec=rec: rec.setdefault('arg', args[0]) and []
-        arg = GenList(list(inp)) if kind == 'iterable' else (list(inp) if kind == 'list' else inp)
+        arg = tuple(inp) if kind == 'iterable' else (list(inp) if kind == 'list' else inp)     # an iterable that is not a list
         try:
             it.construct(doc, [arg], {})
             got = rec.get('arg')
